@@ -218,6 +218,45 @@ def run(chk):
                 return "hyper input order, leaf-order split, reshape and inner evaluation as specified"
             chk.run("C10.R4", f"{HYPER_MOD}:HYPERPINN.eval_nn/_hyper_to_pinn", cfg, go, construct="HYPERPINN.eval_nn")
 
+    # ---------------- R4b parameter counting of the inner network (split points of the hyper-network output)
+    def go_nb():
+        f = w.get(HYPER_MOD, "_get_param_nb")
+        tree = {'layers': [{'weight': Fv('W0', (2, 3)), 'bias': Fv('b0', (2,))}, {'weight': Fv('W1', (1, 2)), 'bias': Fv('b1', (1,))}]}
+        total, cum = f(tree)
+        sizes = [2, 6, 1, 2]      # tree_leaves order: bias before weight in every layer
+        exp_cum = [2, 8, 9, 11]
+        if int(total) != 11 or [int(c) for c in cum] != exp_cum:
+            raise Violation("_get_param_nb", f"({total}, {cum})", f"(11, {exp_cum}) = total and cumulative leaf sizes in tree_leaves order")
+        return "total and cumulative leaf sizes in parameter-leaf order"
+    chk.run("C10.R4", f"{HYPER_MOD}:_get_param_nb", {}, go_nb, construct="_get_param_nb")
+
+    # ---------------- R3c the separable MLPs: coordinate d (time first) goes through its own network
+    _SP = w.get(SPINN_MOD, "_SPINN")
+    for has_t in (False, True):
+        def go_sep(has_t=has_t):
+            d_sp = 2
+            d = d_sp + (1 if has_t else 0)
+
+            def layer(dd):
+                def f(v):
+                    v = to_at(v)
+                    return AT((3,), np.array([S('mlp', dd, z, fz(v)) for z in range(3)], dtype=object))
+                return f
+            sp = _SP.make(d=d, layers=None, separated_mlp=[[layer(dd)] for dd in range(d)])
+            x = vec('x', d_sp)
+            t = vec('t', 1) if has_t else None
+            out = to_at(sp(t, x))
+            coords = ([t[0]] if has_t else []) + [x[j] for j in range(d_sp)]
+            if tuple(out.axes) != (d, 3):
+                raise Violation("shape", f"axes {out.axes}", f"({d}, 3)")
+            for dd in range(d):
+                e = layer(dd)(coords[dd][None])
+                for z in range(3):
+                    if out.data[dd, z] != e.data[z]:
+                        raise Violation(f"row {dd}", str(out.data[dd, z])[:160], str(e.data[z])[:160])
+            return "row d = network d applied to coordinate d (time first)"
+        chk.run("C10.R3", f"{SPINN_MOD}:_SPINN.__call__", {"time": has_t}, go_sep, construct="_SPINN.__call__")
+
     # ---------------- R5 shared outputs
     for modname, fname in ((PINN_MOD, "create_PINN"),):
         def go(modname=modname, fname=fname):
